@@ -11,23 +11,26 @@ import (
 
 // C10-H5 (trie2 range proofs, dishonest responder): a range response that leaves out keys which the
 // trie holds inside the claimed range does not verify. Trie at height 251, hashed (proof nodes carry
-// cached hashes, as in every caller), with three keys in one of several shapes (keys given by their
-// low byte; values arbitrary non-zero); the responder builds the honest proof for [first, last] and
+// cached hashes, as in every caller), with three keys in every shape a small universe of low bytes produces; the responder builds the honest proof for [first, last] and
 // then omits a non-empty subset of the in-range keys other than the last one. first is the smallest
-// key or the (absent) key right after it. The honest response for the same range is the positive control.
-var vxOmitLayouts = [][3]uint64{{16, 20, 200}, {16, 144, 200}, {100, 101, 102}, {3, 128, 130}}
+// key or the key right after it (absent, or - shape {100,101,102} - the second key itself, whose leaf
+// hangs directly off a binary node: defect KF-C10-3, fixed). The honest response for the same range is
+// the positive control.
+var vxOmitUniverse = []uint64{16, 17, 20, 100, 101, 102, 144, 200}
 
 func VxC10Trie2RangeOmission() {
-	vx.Bound("height 251; 3 keys with low bytes from 4 fixed shapes (interior edge on the left boundary path, on the right, none), arbitrary non-zero values; range [first, k3] with first = k1 or k1+1; honest proof from GetRangeProof; responder omits any non-empty subset of the in-range keys other than k3 (or nothing: positive control)")
+	vx.Bound("height 251; every 3-subset of the low bytes {16,17,20,100,101,102,144,200} as keys (interior edges on either boundary path, sibling leaves below one binary node, none), fixed distinct non-zero values (the verdict does not depend on them; hashes stay uninterpreted and are compared under the ideal-hash assumptions); range [first, k3] with first = k1 or k1+1 (absent, or the existing k2); honest proof from GetRangeProof over the hashed trie; responder omits any non-empty subset of the in-range keys other than k3 (or nothing: positive control)")
 	trieutils.VxCaseSplitFirstSetBit()
-	lay := vxOmitLayouts[vx.Choice("layout", len(vxOmitLayouts))]
+	u := vxOmitUniverse
+	i0 := vx.Choice("k1", len(u)-2)
+	i1 := i0 + 1 + vx.Choice("k2", len(u)-2-i0)
+	i2 := i1 + 1 + vx.Choice("k3", len(u)-1-i1)
+	lay := [3]uint64{u[i0], u[i1], u[i2]}
 	var ks, vs [3]felt.Felt
 	t := NewEmpty(251, crypto.Pedersen)
 	for i := range ks {
 		ks[i] = felt.FromUint64[felt.Felt](lay[i])
-		b := vx.FeltBytes("v")
-		vs[i].SetBytes(b[:])
-		vx.Assume(!vs[i].IsZero())
+		vs[i] = felt.FromUint64[felt.Felt](1000 + lay[i])
 		vx.Assert(t.Update(&ks[i], &vs[i]) == nil, "update-ok")
 	}
 	root, herr := t.Hash()
@@ -41,6 +44,9 @@ func VxC10Trie2RangeOmission() {
 	if !firstIsKey {
 		first = felt.FromUint64[felt.Felt](lay[0] + 1)
 		lo = 1
+		if lay[1] == lay[0]+1 {
+			vx.Cover("first-is-an-existing-leaf-below-a-binary-node")
+		}
 	}
 	proof := NewProofNodeSet()
 	vx.Assert(t.GetRangeProof(&first, &ks[2], proof) == nil, "prove-ok")
